@@ -1300,7 +1300,8 @@ M('C11', 'MPO.expectation_value passes init_env_data positionally (twin)', 'tenp
   None, expect='silent')
 
 M('C11', 'original defect: MPO.from_grids reads the last grid before projecting the first', 'tenpy/networks/mpo.py',
-  "                first_grid = grids[0]\n                if len(first_grid) > 1:", "                first_grid = grids[0]\n                last_grid = grids[-1]\n                if len(first_grid) > 1:",
+  "                first_grid = grids[0]\n                if len(first_grid) > 1:\n                    grids[0] = [first_grid[IdL[0]]]\n                    IdL[0] = 0\n                    IdR[0] = None\n                last_grid = grids[-1]  # only now: for a single site it is the projected first grid\n",
+  "                first_grid = grids[0]\n                last_grid = grids[-1]\n                if len(first_grid) > 1:\n                    grids[0] = [first_grid[IdL[0]]]\n                    IdL[0] = 0\n                    IdR[0] = None\n",
   'ALIAS-ends')
 
 # ---------------------------------------------------------------- C16 / C19
